@@ -122,6 +122,11 @@ def seeded(names, tier="quick"):
         sigs = re.findall(r"violation signature: (\S+)", out)
         verdict = "caught" if rc == 1 else ("harness-error" if rc == 2 else "missed")
         rows.append((name, prop, f"{verdict} {sigs[:2]}"))
+        hist = re.findall(r"needs (\d+) earlier run", out)
+        meta.setdefault("detected_by", {})[f"./check run {prop} --tier {tier}"] = {
+            "verdict": verdict, "signatures": sigs[:4],
+            "needs_earlier_runs_in_same_interpreter": int(hist[0]) if hist else 0}
+        json.dump(meta, open(os.path.join(d, "meta.json"), "w"), indent=1, ensure_ascii=False)
         print(f"[selftest] seeded {name} ({prop}): {verdict} {sigs[:3]}", flush=True)
     return 0
 
